@@ -221,7 +221,8 @@ class SeqBuilder:
             if k in ("CXXConstructExpr", "CXXTemporaryObjectExpr"):
                 return Item("nested", n, cls=n.get("rec", "?"), callee=n.get("f"))
             if k == "CXXMemberCallExpr":
-                return Item("nested", n, cls=n.get("frec", "?"), callee=n.get("f"), method=callee_name(n))
+                return Item("nested", n, cls=n.get("frec", "?"), callee=n.get("f"), method=callee_name(n),
+                            src=access_path(f, n["obj"]) if n.get("obj") is not None else None)
             if k == "CallExpr":
                 if n.get("frec"):
                     return Item("nested", n, cls=n["frec"], callee=n.get("f"), method=callee_name(n))
@@ -610,6 +611,7 @@ class Mirror:
         self.nuni = 0
         self.report = report
         self.nested = []          # (writer cls, reader cls) pairs seen
+        self.matches = []         # (writer item, reader item) for every paired leaf element
         self.failed = False
 
     def key(self, what):
@@ -707,6 +709,8 @@ class Mirror:
                         continue
                 self.viol(pos + ":kind", wi, ri, "image element %s: writer emits %s where reader expects %s" % (pos, wi.describe(), ri.describe()))
                 return
+            if wi.kind in ("bytes", "nested"):
+                self.matches.append((wi, ri))
             if wi.kind == "bytes":
                 wit = self.cmp(wi.size, ri.size)
                 if wit == "undecided":
@@ -970,6 +974,78 @@ if __name__ == "__main__":
             print("==", f.qn, f.loc, mode)
             for it in seq:
                 print("   ", f.nloc(it.node), it.describe(), getattr(it, "target", ""))
+
+
+@rule("R-RESAVE", 35, "a loaded object holds every image element in the field its save writes it from "
+                      "(otherwise saving a loaded object cannot reproduce the image)")
+def r_resave(db, rep):
+    pairs = [(w, r) for w, r in find_pairs(db) if not is_dispatcher(db, r)]
+    cone = mirror_cone(db, pairs)
+    for w, r in pairs:
+        wkey = w.rec or nested_key(db, w.qn)
+        if wkey not in cone or not w.rec:
+            continue
+        ws, _ = sequences(db, w, "w")
+        rs, _ = sequences(db, r, "r")
+        m = Mirror(db, rep, w, r, report=False)
+        m.compare(ws, rs)
+        if m.failed:
+            continue     # R-MIRROR reports it
+        rep.visit(r)
+        # non-stream assignments to fields of the created object in the reader
+        field_assigns = collections.defaultdict(list)
+        for lv, wr in written_lvalues(r):
+            p = access_path(r, lv)
+            if p is None:
+                continue
+            if (len(p) == 2 and p[0] == "this") or (len(p) == 3 and p[0] == "local"):
+                field_assigns[p[-1]].append((p, wr))
+        direct = bool(field_assigns)
+        rep.inst(r.loc, "%s restores %d elements of the image written by %s" % (r.qn, len(m.matches), w.qn))
+        if not direct:
+            continue     # constructor-based loader (elements handed to a constructor): not decidable here
+        for wi, ri in m.matches:
+            src = None
+            if wi.kind == "bytes" and wi.scalar and getattr(wi, "value", None) is not None:
+                src = access_path(w, wi.value)
+            elif wi.kind == "bytes" and getattr(wi, "ptr", None) is not None:
+                src = access_path(w, wi.ptr)
+            elif wi.kind == "nested":
+                src = getattr(wi, "src", None)
+            if src is None or len(src) != 2 or src[0] != "this":
+                continue
+            F = src[1]
+            if db.field(w.rec, F) is None:
+                continue
+            rep.ob()
+            tgt = getattr(ri, "target", None)
+            if tgt is None and getattr(ri, "raw", False) and getattr(ri, "ptr", None) is not None:
+                tgt = access_path(r, ri.ptr)        # in.read((char*)field, n): fills the buffer the field points to
+            if m.matches and wi is m.matches[0][0] and wi.kind == "bytes" and wi.scalar and const_value(wi.value) is None \
+                    and F == "type":
+                continue                            # the tag: decided by R-TAGS / R-TAGSELF
+            tgt_field = tgt[-1] if tgt is not None and ((len(tgt) == 2 and tgt[0] == "this") or (len(tgt) == 3 and tgt[0] == "local")) else None
+            others = [(p, wr) for p, wr in field_assigns.get(F, []) if not any(x is ri.node or strip(x) is ri.node for x in walk(wr))]
+            # ignore plain NULL initialisation before the read
+            others = [(p, wr) for p, wr in others if not (wr.get("rhs") is not None and const_value(wr["rhs"]) == 0)]
+            if tgt_field == F and not others:
+                continue
+            if tgt_field == F and getattr(ri, "raw", False):
+                continue
+            if tgt_field == F and others:
+                cfg = r.cfg
+                rp = cfg.position(ri.node)
+                later = [(p, wr) for p, wr in others if cfg.position(wr) and cfg.path_exists(rp, [cfg.position(wr)])]
+                if not later:
+                    continue
+                rep.viol("%s#%s-overwritten" % (r.qn, F), r.nloc(later[0][1]),
+                         "%s reads the image element saved from field %s into that field and then replaces it (%s): "
+                         "%s on the loaded object writes something else than what was loaded" % (r.qn, F, r.nloc(later[0][1]), w.qn), r.qn)
+            elif tgt_field is None and others:
+                rep.viol("%s#%s-rebuilt" % (r.qn, F), r.nloc(others[0][1]),
+                         "%s reads the image element that %s writes from field %s into a temporary and fills field %s with a "
+                         "different object (%s): %s on the loaded object cannot reproduce the image" % (
+                             r.qn, w.qn, F, F, r.nloc(others[0][1]), w.qn), r.qn)
 
 
 # ---------------------------------------------------------------------------------------------------
